@@ -787,6 +787,24 @@ fn gen_c04(r: &mut Rng, seed: u64) -> Scenario {
         phases.sort();
         tags.push(format!("exits:{}", phases.join("/")));
     }
+    if r.chance(1, 10) {
+        // a thread that executes 32-bit code (a 64-bit program that far-jumped into the compatibility
+        // segment, as Wine's WoW64 threads do): registers below 4 GiB, cs = 0x23
+        let ti = r.below(n as u64) as usize;
+        if !b.world.threads[ti].zombie && b.world.threads[ti].regs[R_RSP] != 0 && b.world.threads[ti].program == Program::Parked {
+            let st = b.add_low(0x4000, "rw-p", r.next(), 6);
+            let code = b.add_low(0x2000, "r-xp", r.next(), 7);
+            let t = &mut b.world.threads[ti];
+            t.compat32 = true;
+            for x in t.regs.iter_mut() {
+                *x &= 0xffff_ffff;
+            }
+            t.regs[R_CS] = 0x23;
+            t.regs[R_RSP] = st + 0x2000 + 8 * r.below(256);
+            t.regs[R_RIP] = code + r.below(0x1000);
+            tags.push("thread-in-32bit-mode".into());
+        }
+    }
     let mut sc = simple_dump_scenario("C04", seed, "c04-threads", b, opts);
     reader_knob(r, &mut sc.faults, &mut tags);
     if r.chance(1, 6) {
